@@ -310,9 +310,14 @@ def install_vle_stubs(env, real_refresh_K=False, real_solve_v=True):
         self._T = T
         mol = self._mol_vle
         vs = []
+        interior = env.cfg.get('vmode', 'any') == 'int'
         for i in range(len(self._index)):
-            v = env.leaf(f'v{i}', lo=0.)
-            w.assume(w.le(v, mol[i]))
+            if interior:      # strictly inside: no entry of either phase vanishes (fewer presence forks; 'any' configs cover the rest)
+                v = env.leaf(f'v{i}', lo=0., lo_strict=True)
+                w.assume(w.lt(v, mol[i]))
+            else:
+                v = env.leaf(f'v{i}', lo=0.)
+                w.assume(w.le(v, mol[i]))
             vs.append(v)
         self._v = v = env.arr(vs)
         return v
@@ -336,7 +341,7 @@ def install_vle_stubs(env, real_refresh_K=False, real_solve_v=True):
 SPECS = ('TP', 'TV', 'PV', 'PH', 'PS', 'TH', 'TS', 'Tx', 'Px', 'Ty', 'Py')
 
 
-def spec_kwargs(env, spec):
+def spec_kwargs(env, spec, n_vle=2):
     kw = {}
     for c in spec:
         if c in 'TP':
@@ -345,9 +350,11 @@ def spec_kwargs(env, spec):
             kw[c] = env.w.real('spec.V', lo=0., hi=1.)
         elif c in 'HS':
             kw[c] = env.w.real(f'spec.{c}')
-        else:
+        elif n_vle == 2:
             a = env.w.real(f'spec.{c}0', lo=0., hi=1.)
             kw[c] = env.arr([a, 1.0 - a])
+        else:   # a composition over the chemicals in equilibrium (one partitioning chemical + a non-partitioning one)
+            kw[c] = env.simplex(f'spec.{c}', n_vle)
     return kw
 
 
@@ -361,7 +368,8 @@ def vle_body(spec):
             th = havoc_thermo(env, keys)
             phases = cfg.get('phases', 'gl')
             s, before = multistream(w, 'f', th, phases, cfg['dist'], keys)
-            kw = spec_kwargs(env, spec)
+            n_vle = sum(1 for k in keys if CHEMS[k][1] is None and set(cfg['dist'].get(k, '0')) != {'0'})
+            kw = spec_kwargs(env, spec, n_vle)
             vle = s.vle
             try:
                 vle(**kw)
@@ -382,40 +390,64 @@ def _dist_name(dist, keys):
     return ','.join(f'{k}{dist.get(k, "")}' for k in keys)
 
 
+# Per specification pair: (package, distribution, options).  Options: k = callback evaluations of a havoc'ed iterative
+# solver; solve_v = 'real' (real VLE._solve_v, only the fixed-point iteration is havoc'ed) or 'contract' (VLE._solve_v replaced
+# by its contract 0 <= v <= mol_vle proved in C03/solve_v_clip); vmode = 'any' | 'int' (contract stub anywhere in / strictly
+# inside the range); refresh_K = run the real VLE._refresh_K (it only prepares the solver's initial guess).
+_C, _CI = {'solve_v': 'contract'}, {'solve_v': 'contract', 'vmode': 'int'}
+VLE_QUICK = {
+    'TP': [('W', {'W': '??'}, {}), ('WE', {'W': '+?', 'E': '?+'}, {}), ('WN', {'W': '+?', 'N': '?+'}, {}),
+           ('WX', {'W': '?+', 'X': '+?'}, {}), ('WG', {'W': '++', 'G': '?+'}, {}), ('NX', {'N': '+0', 'X': '0+'}, {}),
+           ('WEN', {'W': '+0', 'E': '0+', 'N': '+?'}, {}), ('WEX', {'W': '+?', 'E': '+0', 'X': '0+'}, {}),
+           ('WES', {'W': '++', 'E': '+0', 'S': '?+'}, {})],
+    'TV': [('W', {'W': '??'}, {}), ('WE', {'W': '+0', 'E': '++'}, dict(_C, k=1)), ('WN', {'W': '+?', 'N': '0+'}, dict(_C, k=1)),
+           ('WEX', {'W': '+0', 'E': '0+', 'X': '+0'}, dict(_CI, k=1)), ('NX', {'N': '+0', 'X': '0+'}, {}),
+           ('WE', {'W': '+0', 'E': '0+'}, {'k': 0})],
+    'PH': [('W', {'W': '??'}, {}), ('WE', {'W': '+0', 'E': '++'}, dict(_CI, k=1)), ('WN', {'W': '+0', 'N': '0+'}, dict(_C, k=0)),
+           ('WEX', {'W': '+0', 'E': '0+', 'X': '+0'}, dict(_CI, k=0)), ('NX', {'N': '?+', 'X': '+?'}, {})],
+    'PS': [('W', {'W': '??'}, {}), ('WE', {'W': '+0', 'E': '++'}, dict(_CI, k=1)), ('WN', {'W': '+0', 'N': '0+'}, dict(_CI, k=0)),
+           ('NX', {'N': '?+', 'X': '+?'}, {})],
+    'TH': [('W', {'W': '??'}, {}), ('WE', {'W': '+?', 'E': '?+'}, dict(_C, k=1)), ('WEN', {'W': '+0', 'E': '0+', 'N': '?+'}, dict(_C, k=1))],
+    'xy': [('WE', {'W': '++', 'E': '++'}, {}), ('WE', {'W': '+?', 'E': '?+'}, {}),
+           ('WEG', {'W': '+0', 'E': '0+', 'G': '?+'}, {})],
+}
+VLE_QUICK['PV'] = VLE_QUICK['TV']
+VLE_QUICK['TS'] = VLE_QUICK['TH']
+
+VLE_THOROUGH = {
+    'TP': [(keys, {k: '??' for k in keys}, {}) for keys in ('W', 'WE', 'WN', 'WX', 'WG', 'NX', 'WEN', 'WEX', 'WEG', 'WES', 'WNX')]
+          + [('WENX', {'W': '+?', 'E': '?+', 'N': '+?', 'X': '?+'}, {}), ('WEM', {'W': '+?', 'E': '?+', 'M': '++'}, {}),
+             ('WE', {'W': '+0', 'E': '0+'}, {'refresh_K': True})],
+    'TV': [('WE', {'W': '+?', 'E': '?+'}, dict(_C, k=2)), ('WE', {'W': '??', 'E': '??'}, dict(_C, k=1)),
+           ('WEN', {'W': '+?', 'E': '?+', 'N': '?+'}, dict(_C, k=1)), ('WEX', {'W': '+?', 'E': '?+', 'X': '+?'}, dict(_C, k=1)),
+           ('WE', {'W': '+?', 'E': '?+'}, {'k': 0}), ('WEM', {'W': '+0', 'E': '0+', 'M': '++'}, dict(_CI, k=1)),
+           ],
+    'PH': [('WE', {'W': '+0', 'E': '++'}, dict(_C, k=0)), ('WE', {'W': '+?', 'E': '?+'}, dict(_CI, k=2)),
+           ('WN', {'W': '+?', 'N': '?+'}, dict(_C, k=1)), ('WEN', {'W': '+0', 'E': '0+', 'N': '?+'}, dict(_CI, k=1)),
+           ('WEX', {'W': '+0', 'E': '0+', 'X': '+?'}, dict(_CI, k=1)), ('WEM', {'W': '+0', 'E': '0+', 'M': '++'}, dict(_CI, k=0))],
+    'PS': [('WE', {'W': '+?', 'E': '?+'}, dict(_CI, k=2)), ('WN', {'W': '+0', 'N': '0+'}, dict(_C, k=0)),
+           ('WEN', {'W': '+0', 'E': '0+', 'N': '?+'}, dict(_CI, k=1)), ('WEX', {'W': '+0', 'E': '0+', 'X': '+?'}, dict(_CI, k=1))],
+    'TH': [('WE', {'W': '??', 'E': '??'}, dict(_C, k=2)), ('WEX', {'W': '+?', 'E': '?+', 'X': '?+'}, dict(_C, k=1)),
+           ('WEM', {'W': '+?', 'E': '?+', 'M': '++'}, dict(_C, k=1))],
+    'xy': [('WE', {'W': '??', 'E': '??'}, {}), ('WEG', {'W': '??', 'E': '??', 'G': '??'}, {})],   # three counted components only raise
+}
+VLE_THOROUGH['PV'] = VLE_THOROUGH['TV']
+VLE_THOROUGH['TS'] = VLE_THOROUGH['TH']
+
+
 def vle_configs(spec):
-    binary_only = spec[1] in 'xy'
+    key = 'xy' if spec[1] in 'xy' else spec
 
     def configs(tier):
+        fam = list(VLE_QUICK[key])
+        if tier == 'thorough':
+            fam += VLE_THOROUGH[key]
         out = []
-        if binary_only:
-            fam = [('WE', d) for d in ('++', '+0', '0+', '??')] + [('WEN', '+0'), ('WEX', '+?')]
-            if tier == 'thorough':
-                fam += [('WEM', '+?'), ('WEG', '??')]
-            for keys, d in fam:
-                dist = {k: (d if len(d) == 2 else d) for k in keys}
-                out.append({'name': f'{keys}/{_dist_name(dist, keys)}', 'pkg': keys, 'dist': dist, 'k': 0})
-            return out
-        if tier == 'quick':
-            fam = [
-                ('W', {'W': '??'}, 1),
-                ('WE', {'W': '+?', 'E': '?+'}, 1),
-                ('WN', {'W': '+?', 'N': '?+'}, 1),
-                ('WX', {'W': '?+', 'X': '+?'}, 1),
-                ('WG', {'W': '++', 'G': '?+'}, 1),
-                ('NX', {'N': '+0', 'X': '0+'}, 0),
-                ('WEN', {'W': '+0', 'E': '0+', 'N': '+?'}, 1),
-                ('WEX', {'W': '+?', 'E': '+0', 'X': '0+'}, 1),
-                ('WES', {'W': '++', 'E': '+0', 'S': '?+'}, 0),
-            ]
-        else:
-            fam = []
-            for keys in ('W', 'WE', 'WN', 'WX', 'WG', 'NX', 'WEN', 'WEX', 'WEG', 'WES', 'WNX'):
-                fam.append((keys, {k: '??' for k in keys}, 1))
-                fam.append((keys, {k: '++' for k in keys}, 2))
-            fam.append(('WENX', {'W': '+?', 'E': '?+', 'N': '+?', 'X': '?+'}, 1))
-            fam.append(('WEM', {'W': '+?', 'E': '?+', 'M': '++'}, 1))
-        for keys, dist, k in fam:
-            out.append({'name': f'{keys}/{_dist_name(dist, keys)}/k={k}', 'pkg': keys, 'dist': dist, 'k': k})
+        for keys, dist, opts in fam:
+            o = dict({'k': 1, 'solve_v': 'real', 'vmode': 'any', 'refresh_K': False}, **opts)
+            nm = f"{keys}/{_dist_name(dist, keys)}/k={o['k']}/solve_v={o['solve_v']}" + ('-int' if o['vmode'] == 'int' else '') \
+                 + ('/refresh_K' if o['refresh_K'] else '')
+            out.append(dict(o, name=nm, pkg=keys, dist=dist))
         return out
     return configs
 
@@ -437,11 +469,10 @@ _A_VLE = ['A-bubble/dew: solve_Py/Ty/Px/Tx return P,T > 0 and a composition >= 0
           'A-fixed-point: VLE._solve_v_fixed_point returns an arbitrary real vector',
           'A-models: Psat, Tsat, mixture H/S/xH/xS and T-solvers return arbitrary values and only read the flows']
 
-ITERATIVE = ('TV', 'PV', 'PH', 'PS', 'TH', 'TS')
 for _spec in SPECS:
     group(f'C03/vle_{_spec}', configs=vle_configs(_spec),
           functions=[f'thermosteam.equilibrium.vle:{f}' for f in _VLE_COMMON + VLE_FUNCS[_spec]],
-          assumptions=_A_VLE, l0=_spec in ITERATIVE)(vle_body(_spec))
+          assumptions=_A_VLE)(vle_body(_spec))
 
 
 # --------------------------------------------------------------------------- loop-free helpers: clip in _solve_v + set_flows
@@ -909,10 +940,10 @@ for _k in B_PKGS_VLE + ['WEO', 'MT']:
     pkg(_k)
 
 
-def _b_flows(rnd, keys, phases):
+def _b_flows(rnd, keys, phases, p_present=0.8):
     """Random non-empty composition over a subset of the package, flows 1e-3..1e3, random initial distribution."""
     flows = {}
-    present = [k for k in keys if rnd.random() < 0.8] or [keys[0]]
+    present = [k for k in keys if rnd.random() < p_present] or [keys[0]]
     for k in present:
         tot = 10 ** rnd.uniform(-3, 3)
         r = rnd.random()
@@ -935,11 +966,16 @@ def bounded_configs(tier):
     out = []
     for spec in SPECS:
         for n in range(n_vle):
-            keys = B_PKGS_VLE[(n + len(out)) % len(B_PKGS_VLE)] if spec[1] not in 'xy' else ['WE', 'WEM', 'WO', 'WEN'][n % 4]
+            xy = spec[1] in 'xy'
+            keys = B_PKGS_VLE[(n + len(out)) % len(B_PKGS_VLE)] if not xy else ['WE', 'WO', 'WEG', 'WEM'][n % 4]
             vals = {'T': rnd.uniform(250., 500.), 'P': 10 ** rnd.uniform(4, 6.7), 'V': rnd.choice([0., 1., rnd.random(), rnd.random()]),
-                    'u': rnd.random(), 'T0': rnd.uniform(280., 320.), 'T1': rnd.uniform(400., 480.), 'x0': rnd.uniform(0.02, 0.98)}
-            out.append({'name': f'vle/{spec}/{keys}/{n}', 'kind': 'vle', 'spec': spec, 'pkg': keys,
-                        'flows': _b_flows(rnd, keys, 'gl'), 'vals': vals})
+                    'u': rnd.random(), 'T0': rnd.uniform(280., 320.), 'T1': rnd.uniform(400., 480.), 'x0': rnd.uniform(0.02, 0.98),
+                    'Vref': rnd.uniform(0.02, 0.98), 'Tref': rnd.uniform(320., 420.), 'Pref': 10 ** rnd.uniform(4.3, 6.)}
+            # 'ref': the second specification (H, S, x or y) is read off a reference flash (T or P, V=Vref) of a copy, so that
+            # it lies in the range where the call returns normally; otherwise it is drawn blindly
+            ref = xy or (spec in ('TH', 'TS')) or (spec in ('PH', 'PS') and n % 2 == 0)
+            out.append({'name': f'vle/{spec}/{keys}/{n}', 'kind': 'vle', 'spec': spec, 'pkg': keys, 'ref': ref,
+                        'flows': _b_flows(rnd, keys, 'gl', 1.0 if xy else 0.8), 'vals': vals})
     for n in range(n_lle):
         keys = ['WO', 'WEO', 'WEG', 'WEN'][n % 4]
         out.append({'name': f'lle/{keys}/{n}', 'kind': 'lle', 'pkg': keys, 'flows': _b_flows(rnd, keys, 'lL'),
@@ -984,7 +1020,19 @@ def bounded_real_solvers(w, cfg):
             kw = {}
             mol = s.mol
             mix = th.mixture
-            for c in spec:
+            if cfg.get('ref'):
+                r = s.copy()
+                first = {'T': v['Tref']} if spec[0] == 'T' else {'P': v['Pref']}
+                r.vle(V=v['Vref'], **first)
+                kw.update(first)
+                c = spec[1]
+                if c == 'H': kw['H'] = r.H
+                elif c == 'S': kw['S'] = r.S
+                else:
+                    idx = r.vle._index
+                    row = r.imol['l' if c == 'x' else 'g'][idx]
+                    kw[c] = row / row.sum()
+            for c in (() if cfg.get('ref') else spec):
                 if c in 'TPV': kw[c] = v[c]
                 elif c == 'H':
                     P = v['P']
